@@ -51,6 +51,10 @@ package main
 //              Commits reachable only from a detached HEAD are not
 //              demanded (man page: "reachable from any reference").
 //
+//   lfs.fetchinclude (whatever its value and wherever it is set) has NO influence on any clause: git-lfs-prune(1)
+//   and git-lfs-config(5) name lfs.fetchexclude only as the setting prune honours, and the property quantifies over
+//   fetchexclude patterns; an include pattern must never make prune retain less.
+//
 //   lfs.fetchexclude exempts a path from checkout / index / recent-ref /
 //   recent-commit (never from stashed / unpushed); the matcher here is
 //   deliberately generous (exempts rather too much than too little).
@@ -86,6 +90,9 @@ type oracle struct {
 	// checkout clause: oid -> states of the registered worktrees whose HEAD tree holds it
 	// ("present" | "dir-missing" | "dir-missing-locked")
 	checkoutVia map[string]map[string]bool
+	// "<clause> <oid>" -> every path under which the clause needs the object
+	clausePaths map[string]map[string]bool
+	include     []string // lfs.fetchinclude of the case: NO influence on any clause, used for labelling and counting only
 	worktrees   []wtInfo
 }
 
@@ -208,10 +215,29 @@ func (o *oracle) required(force, recent bool) []string {
 	return clauseOrder
 }
 
-func (o *oracle) add(cl, oid, why string) {
+func (o *oracle) add(cl, oid, path, why string) {
 	if _, ok := o.clause[cl][oid]; !ok {
 		o.clause[cl][oid] = why
 	}
+	k := cl + " " + oid
+	if o.clausePaths[k] == nil {
+		o.clausePaths[k] = map[string]bool{}
+	}
+	o.clausePaths[k][path] = true
+}
+
+// outsideInclude: lfs.fetchinclude is set and NONE of the paths under which clause cl needs oid matches it. The
+// matcher is the generous one (it matches rather too much), so "outside" is certain.
+func (o *oracle) outsideInclude(cl, oid string) bool {
+	if len(o.include) == 0 {
+		return false
+	}
+	for p := range o.clausePaths[cl+" "+oid] {
+		if excluded(o.include, p) {
+			return false
+		}
+	}
+	return true
 }
 
 func (o *oracle) all() map[string]bool {
@@ -328,7 +354,7 @@ func short(s string) string {
 }
 
 func (c *cs) computeOracle() *oracle {
-	o := &oracle{clause: map[string]map[string]string{}, reachable: map[string]string{}, reachPaths: map[string]map[string]bool{}, stashBase: map[string]string{}, detachedOnly: map[string]string{}, remoteRefKind: map[string]string{}, exclude: c.cfg.Exclude, checkoutVia: map[string]map[string]bool{}}
+	o := &oracle{clause: map[string]map[string]string{}, reachable: map[string]string{}, reachPaths: map[string]map[string]bool{}, stashBase: map[string]string{}, detachedOnly: map[string]string{}, remoteRefKind: map[string]string{}, exclude: c.cfg.Exclude, checkoutVia: map[string]map[string]bool{}, clausePaths: map[string]map[string]bool{}, include: c.cfg.Include}
 	for _, cl := range clauseOrder {
 		o.clause[cl] = map[string]string{}
 	}
@@ -359,7 +385,7 @@ func (c *cs) computeOracle() *oracle {
 			head := w.Head
 			for _, p := range c.ptrsAt(head) {
 				if !excluded(o.exclude, p.Path) {
-					o.add("checkout", p.Ptr.Oid, fmt.Sprintf("HEAD %s of registered worktree %s (%s), path %q", short(head), c.rel(w.Path), w.state(), p.Path))
+					o.add("checkout", p.Ptr.Oid, p.Path, fmt.Sprintf("HEAD %s of registered worktree %s (%s), path %q", short(head), c.rel(w.Path), w.state(), p.Path))
 					if o.checkoutVia[p.Ptr.Oid] == nil {
 						o.checkoutVia[p.Ptr.Oid] = map[string]bool{}
 					}
@@ -393,7 +419,7 @@ func (c *cs) computeOracle() *oracle {
 		c.blobPointers(shas)
 		for _, e := range ents {
 			if bp := c.blobs[e.sha]; bp != nil && bp.ok && !excluded(o.exclude, e.path) {
-				o.add("index", bp.oid, fmt.Sprintf("index of worktree %s, path %q", c.rel(w.Path), e.path))
+				o.add("index", bp.oid, e.path, fmt.Sprintf("index of worktree %s, path %q", c.rel(w.Path), e.path))
 				if _, inHead := o.clause["checkout"][bp.oid]; !inHead {
 					staged = true
 				}
@@ -425,7 +451,7 @@ func (c *cs) computeOracle() *oracle {
 						}
 						continue
 					}
-					o.add("stashed", p.Ptr.Oid, fmt.Sprintf("stash@{%d} %s %s, path %q", n, role, short(cm), p.Path))
+					o.add("stashed", p.Ptr.Oid, p.Path, fmt.Sprintf("stash@{%d} %s %s, path %q", n, role, short(cm), p.Path))
 				}
 			}
 		}
@@ -452,7 +478,7 @@ func (c *cs) computeOracle() *oracle {
 				o.recentTips = append(o.recentTips, f[1])
 				for _, p := range c.ptrsAt(f[1]) {
 					if !excluded(o.exclude, p.Path) {
-						o.add("recent-ref", p.Ptr.Oid, fmt.Sprintf("tip %s of %s aged %.1f days (window %d+%d days), path %q", short(f[1]), f[0], age, c.cfg.RefsDays, c.cfg.OffsetDays, p.Path))
+						o.add("recent-ref", p.Ptr.Oid, p.Path, fmt.Sprintf("tip %s of %s aged %.1f days (window %d+%d days), path %q", short(f[1]), f[0], age, c.cfg.RefsDays, c.cfg.OffsetDays, p.Path))
 					}
 				}
 			}
@@ -491,7 +517,7 @@ func (c *cs) computeOracle() *oracle {
 				if excluded(o.exclude, p.Path) {
 					continue
 				}
-				o.add("recent-remote-ref", p.Ptr.Oid, fmt.Sprintf("tip %s of remote-tracking branch %s aged %.1f days (window %d+%d days, lfs.fetchrecentremoterefs %s), path %q", short(f[1]), f[0], age, c.cfg.RefsDays, c.cfg.OffsetDays, c.cfg.RemoteRefs, p.Path))
+				o.add("recent-remote-ref", p.Ptr.Oid, p.Path, fmt.Sprintf("tip %s of remote-tracking branch %s aged %.1f days (window %d+%d days, lfs.fetchrecentremoterefs %s), path %q", short(f[1]), f[0], age, c.cfg.RefsDays, c.cfg.OffsetDays, c.cfg.RemoteRefs, p.Path))
 				if o.remoteRefKind[p.Ptr.Oid] != "prune-remote" {
 					o.remoteRefKind[p.Ptr.Oid] = kind
 				}
@@ -509,7 +535,7 @@ func (c *cs) computeOracle() *oracle {
 	for _, cm := range c.revList("--branches", "--tags", "--not", remoteGlob) {
 		for _, p := range c.ptrsAt(cm) {
 			if !pushed[p.Ptr.Oid] {
-				o.add("unpushed", p.Ptr.Oid, fmt.Sprintf("local-only commit %s, path %q; in no tree of any commit reachable from refs/remotes/%s/*", short(cm), p.Path, c.cfg.PruneRemote()))
+				o.add("unpushed", p.Ptr.Oid, p.Path, fmt.Sprintf("local-only commit %s, path %q; in no tree of any commit reachable from refs/remotes/%s/*", short(cm), p.Path, c.cfg.PruneRemote()))
 			}
 		}
 	}
@@ -647,6 +673,6 @@ func (o *oracle) replacedBy(c *cs, parent, cm, tip string) {
 		default:
 			continue
 		}
-		o.add("recent-commit", old.oid, fmt.Sprintf("version of %q replaced (%s) by commit %s, which lies within %d+%d days before tip %s", x.path, x.status, short(cm), c.cfg.CommitsDays, c.cfg.OffsetDays, short(tip)))
+		o.add("recent-commit", old.oid, x.path, fmt.Sprintf("version of %q replaced (%s) by commit %s, which lies within %d+%d days before tip %s", x.path, x.status, short(cm), c.cfg.CommitsDays, c.cfg.OffsetDays, short(tip)))
 	}
 }
